@@ -210,6 +210,9 @@ def dry_runs():
         yield 'Q2_commands_async', dict(o1='x\r\n', o2='', o3='yz', c1=1, c2=0, c3=2, shape=shape)
 
 
+PROBES = ['expect_core']      # representation probes (harness/probes.py) this harness depends on
+
+
 MANIFEST_ENTRY = {
     'level_text': 'Bounded symbolic verification of the real REPLWrapper over the real expect_exact/Expecter/'
                   'searcher_string code and a scripted REPL: symbolic outputs (<=3 characters, any code points, not '
